@@ -322,12 +322,15 @@ def _reaction(order, param=None):
 
 
 class _Law(object):
-    """builds the real object(s) of one laws-case and evaluates them under the case's mode"""
+    """builds the real object(s) of one laws-case ONCE, then evaluates the case's history of
+    evaluations against ONE variables mapping (the caller's store) under the case's mode"""
 
     def __init__(self, case):
         self.c = case["in"]
         self.mode = self.c["mode"]
         self.units = self.mode == "units"
+        self.result_units = case["exp"]["result_units"]
+        self.nlanes = len(self.c["lane_factors"])
 
     def val(self, name, x):
         v = float(_num(x))
@@ -349,12 +352,17 @@ class _Law(object):
         return tuple("uk_" + n for n in c["argnames"][:c["keys"]])
 
     def variables(self):
+        """the store: one mapping, handed to every evaluation of the history"""
         c = self.c
         out = {}
         for nm, x in c["vars"].items():
             if nm == "zz":
                 continue
-            out[VARKEY.get(nm, nm)] = self.val(nm, x)
+            if nm in c["lane_vars"]:
+                import numpy as np
+                out[VARKEY.get(nm, nm)] = np.array([float(_num(x) * Fraction(f[0], f[1])) for f in c["lane_factors"]])
+            else:
+                out[VARKEY.get(nm, nm)] = self.val(nm, x)
         for j, p in enumerate(c["present"]):
             if p:
                 nm = c["argnames"][j]
@@ -363,12 +371,16 @@ class _Law(object):
 
     # evaluation of an Expr-like callable under the mode
     def run(self, fn, variables, **kw):
-        """fn(variables, backend) -> result; in sympy mode every variable is a symbol, substituted afterwards"""
+        """fn(variables, backend) -> result; the mapping itself is passed (never a copy) except in sympy
+        mode, where every variable is a symbol that is substituted afterwards"""
         if self.mode in ("math", "units"):
             return fn(variables, math, **kw)
+        if self.mode == "nparray":
+            import numpy as np
+            return fn(variables, np, **kw)
         if self.mode == "numpy":
             import numpy as np
-            return fn({k: np.float64(v) for k, v in variables.items()}, np, **kw)
+            return fn(variables, np, **kw)       # the store already holds np.float64 scalars
         import sympy
         syms = {k: sympy.Symbol(k.replace("_", "")) for k in variables}
         r = fn(dict(syms), sympy, **kw)
@@ -377,71 +389,88 @@ class _Law(object):
             r = r.magnitude.item() if hasattr(r.magnitude, "item") else r.magnitude
         return sympy.sympify(r).subs(sub)
 
-    def evaluate(self):
-        """-> list of results (one per component of the case's terms)"""
+    def make(self):
+        """-> dict who -> f(V) returning the list of component results"""
+        from chempy import Reaction
         from chempy.kinetics import rates as R, _rates as PR, arrhenius as AR, eyring as EY
         from chempy.thermodynamics import expressions as TE
         from chempy.util import _expr as X
         c = self.c
         cls, order = c["cls"], c["order"]
-        args, uk, V = self.given_args(), self.unique_keys(), self.variables()
+        args, uk = self.given_args(), self.unique_keys()
         rxn = _reaction(order)
+        fns = {}
+
+        def rate_fns(ma, param_for_reaction=None):
+            rx = _reaction(order, ma if param_for_reaction is None else param_for_reaction)
+            kc = float(_num(c["companion_k"]))
+            if self.units:
+                kc = kc * _unit("1/M/s")
+            comp = Reaction({"X": 1, "Y": 1}, {"Q": 1}, R.MassAction([kc]))
+            fns["self"] = lambda V: [self.run(lambda v, be: ma(v, backend=be, reaction=rxn), V)]
+            fns["rate"] = lambda V: [self.run(lambda v, be: rx.rate(v, backend=be)["P"], V)]
+            fns["companion"] = lambda V: [self.run(lambda v, be: comp.rate(v, backend=be)["Q"], V)]
+
+        def expr_fn(obj, **kw):
+            fns["self"] = lambda V: [self.run(lambda v, be: obj(v, backend=be, **kw), V)]
+
         if cls in ("MassAction", "Arrhenius", "Eyring", "EyringHS"):
             inner = {"Arrhenius": R.Arrhenius, "Eyring": R.Eyring, "EyringHS": R.EyringHS}.get(cls)
-            ma = R.MassAction(args, uk) if inner is None else R.MassAction(inner(args, uk))
-            return [self.run(lambda v, be: ma(v, backend=be, reaction=rxn), V)]
+            rate_fns(R.MassAction(args, uk) if inner is None else R.MassAction(inner(args, uk)))
+            return fns
         if cls in ("Radiolytic", "RadiolyticAB"):
             K = R.Radiolytic if cls == "Radiolytic" else R.mk_Radiolytic("alpha", "beta")
-            uk2 = None if uk is None else tuple(uk)
-            obj = K(args, uk2)
-            return [self.run(lambda v, be: obj(v, backend=be, reaction=rxn), V)]
+            expr_fn(K(args, uk), reaction=rxn)
+            return fns
         polys = {"TPoly": PR.TPoly, "RTPoly": PR.RTPoly, "ShiftedTPoly": PR.ShiftedTPoly,
                  "ShiftedRTPoly": PR.ShiftedRTPoly, "Log10TPoly": PR.Log10TPoly,
                  "ShiftedLog10TPoly": PR.ShiftedLog10TPoly}
         if cls in polys:
-            obj = polys[cls](args, uk)
-            return [self.run(lambda v, be: obj(v, backend=be), V)]
+            expr_fn(polys[cls](args, uk))
+            return fns
         if cls in ("Log10Wrap", "ExpWrap"):
-            obj = (X.Log10 if cls == "Log10Wrap" else X.Exp)(PR.TPoly(args))
-            return [self.run(lambda v, be: obj(v, backend=be), V)]
+            expr_fn((X.Log10 if cls == "Log10Wrap" else X.Exp)(PR.TPoly(args)))
+            return fns
         if cls == "TPiecewise":
             a = {n: self.val(n, c["args"][n]) for n in c["argnames"]}
-            obj = PR.TPiecewise([a["lo"], PR.TPoly([a["p0"], a["p1"]]), a["mid"], PR.TPoly([a["q0"], a["q1"]]), a["hi"]])
-            return [self.run(lambda v, be: obj(v, backend=be), V)]
+            expr_fn(PR.TPiecewise([a["lo"], PR.TPoly([a["p0"], a["p1"]]), a["mid"], PR.TPoly([a["q0"], a["q1"]]), a["hi"]]))
+            return fns
         if cls in ("RampedTemp", "SinTemp"):
-            obj = getattr(R, cls)(args, uk)
-            return [self.run(lambda v, be: obj(v, backend=be), V)]
+            expr_fn(getattr(R, cls)(args, uk))
+            return fns
         if cls in ("MassActionEq", "EqEquation"):
             from chempy import Equilibrium
             obj = TE.MassActionEq(args, uk)
             eq = Equilibrium({"X": 1}, {"Y": 2}, obj)
             if cls == "MassActionEq":
-                return [self.run(lambda v, be: obj(v, backend=be), V)]
-            return [self.run(lambda v, be: obj.equilibrium_equation(v, backend=be, equilibrium=eq), V)]
+                expr_fn(obj)
+            else:
+                fns["self"] = lambda V: [self.run(lambda v, be: obj.equilibrium_equation(v, backend=be, equilibrium=eq), V)]
+            return fns
         if cls == "GibbsEqConst":
-            obj = TE.GibbsEqConst(args, uk)
-            return [self.run(lambda v, be: obj(v, backend=be), V)]
+            expr_fn(TE.GibbsEqConst(args, uk))
+            return fns
         # ---- parameter sets (namedtuples with __call__(T, backend=...))
         a = {n: self.val(n, c["args"][n]) for n in c["argnames"]}
-        T = V.get("temperature")
 
-        def call_param(p, Tv):
+        def call_param(p, V):
             """p(T) under the mode"""
+            Tv = V.get("temperature")
             if self.mode == "math":
                 return p(Tv, backend=math)
-            if self.mode == "numpy":
+            if self.mode in ("numpy", "units", "nparray"):
                 return p(Tv)                                   # default backend
-            if self.mode == "units":
-                return p(Tv)
             import sympy
             Ts = sympy.Symbol("T")
             return sympy.sympify(p(Ts, backend=sympy)).subs({Ts: sympy.Rational(*Fraction(Tv).as_integer_ratio())})
         if cls == "ArrheniusParam":
-            P = AR.ArrheniusParamWithUnits if self.units else AR.ArrheniusParam
-            return [call_param(P(a["A"], a["Ea"]), T)]
+            p = (AR.ArrheniusParamWithUnits if self.units else AR.ArrheniusParam)(a["A"], a["Ea"])
+            fns["self"] = lambda V: [call_param(p, V)]
+            return fns
         if cls == "EyringParam":
-            P = EY.EyringParamWithUnits if self.units else EY.EyringParam
-            return [call_param(P(a["dH"], a["dS"]), T)]
+            p = (EY.EyringParamWithUnits if self.units else EY.EyringParam)(a["dH"], a["dS"])
+            fns["self"] = lambda V: [call_param(p, V)]
+            return fns
         if cls == "ArrheniusFromK":
             P = AR.ArrheniusParamWithUnits if self.units else AR.ArrheniusParam
             kw = {}
@@ -451,27 +480,47 @@ class _Law(object):
                 import sympy
                 kw["backend"] = sympy
             p = P.from_rateconst_at_T(a["Ea"], (a["T0"], a["k0"]), **kw)
-            return [call_param(p, T), p.A]
+            fns["self"] = lambda V: [call_param(p, V), p.A]
+            return fns
         if cls in ("ArrheniusAsRate", "EyringAsRate"):
             if cls == "ArrheniusAsRate":
-                P = AR.ArrheniusParamWithUnits if self.units else AR.ArrheniusParam
-                ma = P(a["A"], a["Ea"]).as_RateExpr(unique_keys=uk)
+                ps = (AR.ArrheniusParamWithUnits if self.units else AR.ArrheniusParam)(a["A"], a["Ea"])
             else:
-                P = EY.EyringParamWithUnits if self.units else EY.EyringParam
-                ma = P(a["dH"], a["dS"]).as_RateExpr(unique_keys=uk)
-            return [self.run(lambda v, be: ma(v, backend=be, reaction=rxn), V)]
+                ps = (EY.EyringParamWithUnits if self.units else EY.EyringParam)(a["dH"], a["dS"])
+            ma = ps.as_RateExpr(unique_keys=uk)
+            # without keys the parameter set itself is the reaction's param (Reaction.rate_expr converts it)
+            rate_fns(ma, ps if uk is None else None)
+            return fns
         raise KeyError(cls)
 
     def project(self, results):
-        """results -> floats; in units mode in the unit the case names"""
+        """results of one evaluation -> per component a list of floats (one per array lane); in units
+        mode in the unit the case names"""
+        import numpy as np
         out = []
-        for r, ustr in zip(results, self.c_result_units):
+        for r, ustr in zip(results, self.result_units):
             if self.units:
                 from chempy.units import to_unitless
-                out.append(float(to_unitless(r, _unit(ustr))))
+                r = to_unitless(r, _unit(ustr))
+            if self.nlanes > 1:
+                if hasattr(r, "magnitude"):
+                    r = r.magnitude
+                arr = np.broadcast_to(np.asarray(r, dtype=float), (self.nlanes,))
+                out.append([float(x) for x in arr])
             else:
-                out.append(_float(r))
+                out.append([_float(r)])
         return out
+
+
+def _snapshot(V):
+    """structural snapshot of a variables mapping: per key (type name, unit text, values)"""
+    import numpy as np
+    out = {}
+    for k, v in V.items():
+        unit = str(getattr(v, "dimensionality", ""))
+        mag = getattr(v, "magnitude", v)
+        out[k] = [type(v).__name__, unit, [float(x) for x in np.atleast_1d(np.asarray(mag, dtype=float))]]
+    return out
 
 
 def _fit_obs(case):
@@ -506,26 +555,46 @@ def laws_case(case):
     if c["cls"] in ("FitArrhenius", "FitEyring", "LeastSquares"):
         return {"fits": _fit_obs(case)}
     law = _Law(case)
-    law.c_result_units = case["exp"]["result_units"]
-    try:
-        import warnings
-        with warnings.catch_warnings():
-            warnings.simplefilter("ignore")
-            res = law.evaluate()
-            return {"vals": law.project(res)}
-    except Exception as e:
-        import traceback
-        return {"raise": _exc(e), "tb": traceback.format_exc()[-600:]}
+    import warnings
+    with warnings.catch_warnings():
+        warnings.simplefilter("ignore")
+        try:
+            fns = law.make()
+            V = law.variables()
+        except Exception as e:
+            import traceback
+            return {"raise": _exc(e), "tb": traceback.format_exc()[-600:], "step": 0}
+        if law.mode == "numpy":
+            import numpy as np
+            for k in list(V):
+                V[k] = np.float64(V[k])
+        before = _snapshot(V)
+        steps = []
+        for i, who in enumerate(c["hist"], 1):
+            try:
+                steps.append({"who": who, "vals": law.project(fns[who](V))})   # projected at once: no aliasing
+            except Exception as e:
+                import traceback
+                steps.append({"who": who, "raise": _exc(e), "tb": traceback.format_exc()[-600:]})
+        after = _snapshot(V)
+    return {"steps": steps, "changed": sorted(k for k in before if before[k] != after.get(k)),
+            "store_keys_changed": sorted(set(before) ^ set(after)),
+            "before": {k: before[k] for k in before if before[k] != after.get(k)},
+            "after": {k: after[k] for k in before if before[k] != after.get(k)}}
+
+
+def _range_of(exp, term, exact):
+    if exact["st"] == "q":
+        q = Fraction(*exact["q"])
+        return q, q
+    names = sorted(exp["brackets"])
+    envs = [dict(zip(names, combo)) for combo in itertools.product(*[exp["brackets"][n] for n in names])]
+    return terms.bracket(term, envs or [{}], prec=30)
 
 
 def _expected_range(case, i):
     exp = case["exp"]
-    if exp["exact"][i]["st"] == "q":
-        q = Fraction(*exp["exact"][i]["q"])
-        return q, q
-    names = sorted(exp["brackets"])
-    envs = [dict(zip(names, combo)) for combo in itertools.product(*[exp["brackets"][n] for n in names])]
-    return terms.bracket(exp["terms"][i], envs or [{}], prec=30)
+    return _range_of(exp, exp["terms"][i], exp["exact"][i])
 
 
 def judge_laws(case, obs):
@@ -544,13 +613,31 @@ def judge_laws(case, obs):
                                 {"observed": o, "expected": [str(lo), str(hi)]}))
         return bad
     if "raise" in obs:
-        return [({"clause": "raises", "exc": obs["raise"]["raised"]}, {"observed": obs, "expected": "a value"})]
-    for i, o in enumerate(obs["vals"]):
-        lo, hi = _expected_range(case, i)
-        if isinstance(o, complex) or not terms.within(o, lo, hi, rtol, 0):
-            bad.append(({"clause": "value", "component": i},
-                        {"observed": repr(o), "expected": [str(lo), str(hi)],
-                         "term": terms.term_str(exp["terms"][i])}))
+        return [({"clause": "raises", "exc": obs["raise"]["raised"], "step": 0}, {"observed": obs, "expected": "a value"})]
+    for n, (st, est) in enumerate(zip(obs["steps"], exp["steps"]), 1):
+        key = {"step": n, "who": est["who"], "hist": "-".join(case["in"]["hist"])}
+        if "raise" in st:
+            bad.append((dict(key, clause="raises", exc=st["raise"]["raised"]), {"observed": st, "expected": "a value"}))
+            continue
+        done = False
+        for l, lane in enumerate(est["lanes"]):
+            for i, term in enumerate(lane["terms"]):
+                lo, hi = _range_of(exp, term, lane["exact"][i])
+                o = st["vals"][i][l]
+                if isinstance(o, complex) or not terms.within(o, lo, hi, rtol, 0):
+                    bad.append((dict(key, clause="value", component=i, lane=l),
+                                {"observed": repr(st["vals"]), "expected": [str(lo), str(hi)],
+                                 "term": terms.term_str(term)}))
+                    done = True
+                    break
+            if done:
+                break
+    # frame condition: evaluation does not modify the mapping it was given
+    if exp["frame"] == "variables-unchanged" and (obs["changed"] or obs["store_keys_changed"]):
+        bad.append(({"clause": "frame", "hist": "-".join(case["in"]["hist"])},
+                    {"observed": {"changed": obs["changed"], "before": obs["before"], "after": obs["after"],
+                                  "keys": obs["store_keys_changed"]},
+                     "expected": "the caller's variables unchanged after %d evaluation(s)" % len(obs["steps"])}))
     return bad
 
 
@@ -617,7 +704,7 @@ def _nontrivial(case):
 
 SLICES_Q = [("resolve_q", ["SetClass", "GenArgs", "GenKeys", "GenVars", "GenResolve"], 1000),
             ("algebra_q", ["GenLeaf", "GenOp", "GenNeg", "FinishTree"], 1600),
-            ("laws_q", ["ChooseLaw", "GenPset", "GenTemp", "Evaluate"], None)]
+            ("laws_q", ["ChooseLaw", "GenPset", "GenTemp", "Evaluate", "GenStep", "GenFinishHist"], 3500)]
 SLICES_T = [("resolve_t", [], None), ("algebra_t", [], 40000), ("algebra_t4", [], 40000), ("laws_t", [], None)]
 
 
